@@ -5,6 +5,13 @@ Open Scope Z_scope.
 Definition tie : Prop :=
   Z.of_N (Replay.cfg_size 0) = GenConsts.D.defaultReplayWindowSize /\
   Z.of_N (Replay.cfg_size (-1)) = GenConsts.D.defaultReplayWindowSize /\
-  GenConsts.D.recordHeaderLen = 13.
+  GenConsts.D.recordHeaderLen = 13 /\
+  (* newReplayWindow's floor and the cap check applies to the size it uses (the bitmap has 64 bits) *)
+  GenConsts.D.newReplayWindow_size <> nil /\ GenConsts.D.check_size <> nil /\
+  Forall (fun x => x = Z.of_N (Replay.size (Replay.new_window 0))) GenConsts.D.newReplayWindow_size /\
+  Forall (fun x => x = Z.of_N (Replay.eff_size (Replay.new_window 1000))) GenConsts.D.check_size.
 Lemma tie_holds : tie.
-Proof. unfold tie. vm_compute. repeat split. Qed.
+Proof.
+  unfold tie. repeat split; try (vm_compute; reflexivity); try (vm_compute; discriminate);
+  repeat (constructor; try (vm_compute; reflexivity)).
+Qed.
